@@ -25,6 +25,9 @@ M = {
     "selectn_round": ("algos.py", "            keep_n = int(self.n * len(stat))", "            keep_n = int(round(self.n * len(stat)))"),
     "selectall_ge": ("algos.py", "                target.temp[\"selected\"] = list(universe[universe > 0].index)\n        return True\n\n\nclass SelectThese", "                target.temp[\"selected\"] = list(universe[universe >= 0].index)\n        return True\n\n\nclass SelectThese"),
     "totalreturn_end_now": ("algos.py", "        prc = target.universe.loc[t0 - self.lookback : t0, selected]\n        target.temp[\"stat\"] = prc.calc_total_return()", "        prc = target.universe.loc[t0 - self.lookback :, selected]\n        target.temp[\"stat\"] = prc.calc_total_return()"),
+    "universe_unsliced": ("core.py", "            self._funiverse = self._universe.loc[: self.now]\n", "            self._funiverse = self._universe\n"),
+    "invvol_window_now": ("algos.py", "        prc = target.universe.loc[t0 - self.lookback : t0, selected]\n        tw = bt.ffn.calc_inv_vol_weights(prc.to_returns().dropna())", "        prc = target.universe.loc[t0 - self.lookback :, selected]\n        tw = bt.ffn.calc_inv_vol_weights(prc.to_returns().dropna())"),
+    "coupon_next_row": ("core.py", "        coupon = self._coupons.values[inow]\n", "        coupon = self._coupons.values[min(inow + 1, len(self._coupons.values) - 1)]\n"),
     "pre_f01": ("core.py", "def _w(series):", "def _w(series):\n    return series.values\n\n\ndef _w_orig(series):"),
 }
 
